@@ -215,3 +215,49 @@ char* _ZN10QByteArray7replaceEPKcS1_(char *self, char *before, char *after) { ui
 void _ZN9QDateTimeC1ERKS_(char *self, char *o) { *(char**)self = *(char**)o; }
 void _ZN9QDateTimeC1EOS_(char *self, char *o) { *(char**)self = *(char**)o; }
 char* _ZN9QDateTimeaSERKS_(char *self, char *o) { *(char**)self = *(char**)o; return self; }
+#ifdef HAVE_T_struct_QArrayData
+/* ---- DIGEST-MD5 support ---- */
+/* QString::arg(a1, a2) (multi-arg form -> QtPrivate::argToQString): "%N" placeholders (N = 1..9) replaced by the N-th argument */
+void _ZN9QtPrivate12argToQStringE11QStringViewmPPKNS_7ArgBaseE(char *ret, uint64_t psize, char *pat, uint64_t nargs, char *args) { const uint16_t *p = (const uint16_t*)pat; QAD *d = qs_new(0, QS_CAP); uint32_t j = 0;
+  for (uint32_t i = 0; i < QS_CAP; i++) { if (i >= psize) break;
+    if (p[i] == '%' && i + 1 < psize && p[i + 1] >= '1' && p[i + 1] <= '9' && (uint64_t)(p[i + 1] - '1') < nargs) { char *ab = ((char**)args)[p[i + 1] - '1']; uint64_t an = *(uint64_t*)(ab + 8); const uint16_t *ad = *(const uint16_t**)(ab + 16);
+      ASSERT(j + an <= QS_CAP, "QString capacity of the model exceeded (arg)"); for (uint32_t k = 0; k < QS_CAP; k++) { if (k >= an) break; ((struct qs*)d)->data[j + k] = ad[k]; } j += (uint32_t)an; i++; }
+    else { ASSERT(j < QS_CAP, "QString capacity of the model exceeded (arg)"); ((struct qs*)d)->data[j++] = p[i]; } }
+  d->f1 = j; ((struct qs*)d)->hint = j; *(QAD**)ret = d; }
+void _ZNK14QMessageLogger7warningEPKcz(char *self, char *fmt, ...) { }
+/* lower-case hex */
+void _ZNK10QByteArray5toHexEv(char *ret, char *self) { QAD *a = QBD(self); uint32_t n = a->f1, h = c06_hint(a); ASSERT(2 * n <= QB_CAP, "QByteArray capacity of the model exceeded (toHex)"); QAD *d = qb_new(2 * n, 2 * h);
+  for (uint32_t i = 0; i < QB_CAP / 2; i++) { if (i >= n || i >= h) break; uint8_t b = qb_bytes(a)[i], hi = b >> 4, lo = b & 15; C06_BD(d)[2 * i] = (uint8_t)(hi < 10 ? '0' + hi : 'a' + hi - 10); C06_BD(d)[2 * i + 1] = (uint8_t)(lo < 10 ? '0' + lo : 'a' + lo - 10); }
+  C06_BD(d)[2 * n] = 0; QBD(ret) = d; }
+/* trimmed(): strip ASCII white space at both ends */
+static uint8_t c06_isspace(uint8_t c) { return c == ' ' || (c >= 9 && c <= 13); }
+void _ZN10QByteArray14trimmed_helperERS_(char *ret, char *self) { QAD *a = QBD(self); uint32_t n = a->f1, h = c06_hint(a); uint32_t b = 0, e = n;
+  for (uint32_t i = 0; i < QB_CAP; i++) { if (i >= n || i >= h) break; if (b == i && c06_isspace(qb_bytes(a)[i])) b = i + 1; }
+  for (uint32_t i = 0; i < QB_CAP; i++) { if (i >= n || i >= h) break; uint32_t k = n - 1 - i; if (e == k + 1 && k >= b && c06_isspace(qb_bytes(a)[k])) e = k; }
+  if (b == 0 && e == n) { QBD(ret) = qad_ref(a); return; }
+  uint32_t l = e > b ? e - b : 0; QAD *d = qb_new(l, h); c06_copy8(d, 0, qb_bytes(a) + b, l, h); C06_BD(d)[l] = 0; QBD(ret) = d; }
+/* class-level QMap<QByteArray,QByteArray>: array of (key,value) kept sorted by key (qstrcmp order); iterators point at entries */
+#define C06_BMAP_CAP 10
+struct c06_bent { QAD *k; QAD *v; };
+struct c06_bmap { uint32_t n; struct c06_bent e[C06_BMAP_CAP + 1]; };
+#define BMAP(self) (*(struct c06_bmap**)(self))
+static int c06_bcmp(QAD *a, QAD *b) { char *pa = (char*)&a, *pb = (char*)&b; return (int32_t)_Z7qstrcmpRK10QByteArrayS1_(pa, pb); }
+/* index of the first entry whose key is not less than key; *found = key present there */
+static uint32_t c06_bfind(struct c06_bmap *m, QAD *key, uint8_t *found) { uint32_t pos = m->n; *found = 0; uint8_t done = 0;
+  for (uint32_t i = 0; i < C06_BMAP_CAP; i++) { if (i >= m->n) break; if (!done) { int c = c06_bcmp(m->e[i].k, key); if (c >= 0) { pos = i; *found = (c == 0); done = 1; } } } return pos; }
+static struct c06_bent *c06_bslot(struct c06_bmap *m, QAD *key) { uint8_t found; uint32_t pos = c06_bfind(m, key, &found); if (found) return &m->e[pos];
+  ASSERT(m->n < C06_BMAP_CAP, "QMap<QByteArray,QByteArray> capacity of the model exceeded"); for (uint32_t i = C06_BMAP_CAP; i > 0; i--) { if (i <= m->n && i > pos) m->e[i] = m->e[i - 1]; }
+  m->n++; m->e[pos].k = qad_ref(key); m->e[pos].v = SHARED_NULL; return &m->e[pos]; }
+void _ZN4QMapI10QByteArrayS0_EC2Ev(char *self) { struct c06_bmap *m = malloc(sizeof(struct c06_bmap)); ASSUME(m != 0); m->n = 0; for (uint32_t i = 0; i <= C06_BMAP_CAP; i++) { m->e[i].k = SHARED_NULL; m->e[i].v = SHARED_NULL; } BMAP(self) = m; }
+void _ZN4QMapI10QByteArrayS0_ED2Ev(char *self) { }
+char* _ZN4QMapI10QByteArrayS0_EixERKS0_(char *self, char *key) { return (char*)&c06_bslot(BMAP(self), QBD(key))->v; }
+char* _ZN4QMapI10QByteArrayS0_E6insertERKS0_S3_(char *self, char *key, char *val) { struct c06_bent *e = c06_bslot(BMAP(self), QBD(key)); e->v = qad_ref(QBD(val)); return (char*)e; }
+uint8_t _ZNK4QMapI10QByteArrayS0_E8containsERKS0_(char *self, char *key) { uint8_t found; c06_bfind(BMAP(self), QBD(key), &found); return found; }
+void _ZNK4QMapI10QByteArrayS0_E5valueERKS0_S3_(char *ret, char *self, char *key, char *def) { struct c06_bmap *m = BMAP(self); uint8_t found; uint32_t pos = c06_bfind(m, QBD(key), &found); QBD(ret) = found ? qad_ref(m->e[pos].v) : qad_ref(QBD(def)); }
+char* _ZNK4QMapI10QByteArrayS0_E5beginEv(char *self) { return (char*)&BMAP(self)->e[0]; }
+char* _ZNK4QMapI10QByteArrayS0_E3endEv(char *self) { struct c06_bmap *m = BMAP(self); return (char*)&m->e[m->n]; }
+char* _ZN4QMapI10QByteArrayS0_E14const_iteratorppEi(char *it, uint32_t dummy) { char *old = *(char**)it; *(char**)it = old + sizeof(struct c06_bent); return old; }
+char* _ZNK4QMapI10QByteArrayS0_E14const_iterator3keyEv(char *it) { return (char*)&(*(struct c06_bent**)it)->k; }
+char* _ZNK4QMapI10QByteArrayS0_E14const_iterator5valueEv(char *it) { return (char*)&(*(struct c06_bent**)it)->v; }
+uint8_t _ZNK4QMapI10QByteArrayS0_E14const_iteratorneERKS2_(char *a, char *b) { return *(char**)a != *(char**)b; }
+#endif
